@@ -270,6 +270,11 @@ func (vc *VC) evalIdent(env *Env, name string) Term {
 	if t, ok := vc.localCell(env, name); ok {
 		return t
 	}
+	if env.fr != nil {
+		if t, ok := vc.freeVarValue(env.fr, env.cur, name); ok {
+			return t
+		}
+	}
 	if env.oldVars != nil {
 		if t, ok := env.oldVars[name]; ok {
 			return t
@@ -1251,4 +1256,26 @@ func (vc *VC) curLoop(env *Env) *loopInfo {
 		vc.unsup("pre()/newinloop(): loop state not available")
 	}
 	return li
+}
+
+// freeVarValue is the current content of the captured variable `name` of a function literal under verification.
+func (vc *VC) freeVarValue(fr *Frame, st *State, name string) (Term, bool) {
+	for _, fv := range fr.fn.FreeVars {
+		if fv.Name() != name {
+			continue
+		}
+		cell, ok := fr.vals[fv]
+		if !ok {
+			return Term{}, false
+		}
+		et := fv.Type().Underlying().(*types.Pointer).Elem()
+		switch et.Underlying().(type) {
+		case *types.Struct:
+			return vc.loadStruct(st, et, cell.T.S), true
+		case *types.Array:
+			return Term{}, false
+		}
+		return vc.load(st, &LVal{Kind: LPtr, Key: vc.ptrKey(et), Ref: cell.T.S, T: et}), true
+	}
+	return Term{}, false
 }
